@@ -83,6 +83,65 @@ def gen_case(rng, allow_f10=False, boundary=False, single=None, force_policy=Non
             "rseed": rng.randrange(1 << 30)}
 
 
+def gen_case_ids(rng):
+    """Like gen_case, but a request may name a specific resource id of some worker, and one strategy may ask for the
+    same resource name twice (`any` + a specific id, or two specific ids): the cumulative fit test matters."""
+    c = gen_case(rng)
+    entries = {}
+    for pi, p in enumerate(c["pools"]):
+        for wi, w in enumerate(p["workers"]):
+            for ei, (n, _) in enumerate(w["res"]):
+                entries.setdefault(n, []).append([pi, wi, ei])
+    for t in c["tasks"]:
+        for s in t["strats"]:
+            req = []
+            for n, q in s["req"]:
+                kinds = ["any", "id", "both", "two"]
+                k = rng.choice(kinds) if n in entries else "any"
+                ids = entries.get(n, [])
+                if k == "any":
+                    req.append([n, q])
+                elif k == "id":
+                    req.append([n, q, rng.choice(ids)])
+                elif k == "both":
+                    pair = [[n, q], [n, rng.choice([1, 1, 2]), rng.choice(ids)]]
+                    rng.shuffle(pair)
+                    req += pair
+                else:
+                    two = rng.sample(ids, 2) if len(ids) >= 2 else [rng.choice(ids)]
+                    req += [[n, rng.choice([0, 1, 1, 2]), i] for i in two]
+            s["req"] = req
+    return c
+
+
+def rid(e):
+    return e[0] * 100 + e[1] * 10 + e[2]
+
+
+def g_winput(case, r):
+    ps = []
+    for pi, p in enumerate(case["pools"]):
+        ws = []
+        for wi, w in enumerate(p["workers"]):
+            av, tot = [], []
+            for ei, (n, t) in enumerate(w["res"]):
+                key = "(%s, RId %s)" % (gz(n), gz(rid([pi, wi, ei])))
+                av.append("(%s, %s)" % (key, gz(r["init"][pi][wi][ei][1])))
+                tot.append("(%s, %s)" % (key, gz(t)))
+            ws.append("(wworker %s %s)" % (glist(av), glist(tot)))
+        ps.append("(%s, %s)" % (gz(pi), glist(ws)))
+    ts = []
+    for ti, (d, rel, rem) in zip(r["offered"], r["offered_attrs"]):
+        t = case["tasks"][ti]
+        ss = []
+        for s in t["strats"]:
+            req = ["((%s, %s), %s)" % (gz(q[0]), "RAny" if len(q) == 2 else "RId %s" % gz(rid(q[2])), gz(q[1])) for q in s["req"]]
+            ss.append("(mkStrat 0%%Z false %s 1%%Z %s)" % (glist(req), gz(s["runtime"])))
+        ts.append("(wtask %s (mkTA %s %s %s %s) %s)" % (gz(ti), gz(d), gz(rel), gz(rem), gz(t["graph"]), glist(ss)))
+    return "(mkWI %s %s %s %s %s %s)" % (gz(case["policy"]), gbool(case["enforce"]), gbool(case["preemptive"]),
+                                           gz(case["now"]), glist(ps), glist(ts))
+
+
 def f10_signature(case):
     """Input signature of known finding F10: preemption on, >= 2 task graphs, a resident task."""
     return (case["preemptive"] and len({t["graph"] for t in case["tasks"]}) >= 2
@@ -416,6 +475,44 @@ def run(ctx):
                                        % POL[cases[idx]["policy"]]})
         except core.ModelEvalError as e:
             ctx.broken.append({"kind": "correspondence", "name": "S-greedy-wl", "detail": str(e)[-600:]})
+    # requests naming specific resource ids, possibly twice the same name: only the worker-model instance covers them
+    ctx.rules.append(
+        "S-greedy-ids: S-greedy cases whose strategies request specific resource ids of some worker, incl. `any` + a specific "
+        "id or two specific ids of one name in one strategy (the cumulative fit test of Resources.__gt__ decides) -> real "
+        "schedule() vs the policy model over the shared worker model: decisions and final virtual availability.")
+    if getattr(ctx, "greedy_model_ok", True):
+        idc = []
+        while len(idc) < (500 if quick else 5000):
+            c = gen_case_ids(ctx.rng)
+            if not f10_signature(c):
+                idc.append(c)
+        idr = run_impl(idc)
+        try:
+            ok_i = [i for i, r in enumerate(idr) if r["result"][0] != 0 or r["virtual"] is not None]
+            cs = [(g_winput(idc[i], idr[i]), [idr[i]["result"], expected_virtual(idr[i])], idc[i]) for i in ok_i]
+            mism = ctx.model_stream("S-greedy-ids", HEADER + "\nFrom Verif Require Import Model.Res Model.Worker Proofs.GreedyP4.",
+                                    "winput", "w_observe_both", cs)
+            for k, mv in mism[:3]:
+                i = ok_i[k]
+                ctx.violation("Sgreedyids_%d" % i,
+                              {"stream": "S-greedy-ids", "case": idc[i], "offered": idr[i]["offered"], "init": idr[i]["init"],
+                               "implementation": idr[i]["result"], "implementation_virtual": idr[i]["virtual"], "model": mv,
+                               "error": idr[i].get("error"),
+                               "what": "%s.schedule() on requests with specific resource ids differs from the policy model over "
+                                       "the shared worker model" % POL[idc[i]["policy"]]})
+            ctx.cov["input_distribution"]["ids_cases"] = {
+                "cases": len(idc), "errors": sum(1 for r in idr if r["result"][0] != 0),
+                "with_unplaced": sum(1 for r in idr if r["result"][0] == 0 and any(d[0] == 2 for d in r["result"][1])),
+                "strategies_naming_a_resource_twice": sum(1 for c in idc for t in c["tasks"] for s in t["strats"]
+                                                           if len({q[0] for q in s["req"]}) < len(s["req"]))}
+            ctx.cov["distinct_nontrivial"] += sum(1 for c, r in zip(idc, idr) if nontrivial(c, r))
+        except core.ModelEvalError as e:
+            ctx.broken.append({"kind": "correspondence", "name": "S-greedy-ids", "detail": str(e)[-600:]})
+        for i, r in enumerate(idr):
+            if not r["unchanged"]:
+                ctx.violation("sidefx_ids%d" % i, {"stream": "S-greedy-ids", "case": idc[i], "diff": r.get("diff"),
+                                                   "what": "schedule() changed the live cluster or a task"})
+                break
     # the live cluster must never be touched (cheap to look at here too)
     for i, r in enumerate(impl):
         if not r["unchanged"]:
